@@ -135,7 +135,10 @@ def units_to_bytes(units, radix, order):
         n = w.get(len(t))
         if n is None:
             return None
-        out += parse_num(t, radix).to_bytes(n, order)
+        v = parse_num(t, radix)
+        if v >= (1 << (8 * n)):
+            return None          # fits the digit count but not the unit: not a code field
+        out += v.to_bytes(n, order)
     return bytes(out)
 
 
@@ -245,6 +248,11 @@ def run_case(case, ctx):
                         used.add(id(e))
             if ok:
                 out.obs['listing_groups_matched_by_address'] += 1
+                continue
+            if not complete:
+                # golden sources contain statements that put a word into the code column (RESTORE: ALL, MACEXP_DFT: NONE ...),
+                # which may read as a number in a high radix; a line that emitted nothing at all is taken for such an annotation
+                out.obs['listing_annotations_skipped'] += 1
                 continue
             out.violate('listing:code-line-without-emission', '%s: listing shows code for line %d at %s that was not emitted there: %r' % (tag, g['line'], hex(g['addr']), g['raw'][:80]))
         elif all(((int(e['addr'], 16) + int(e['phase'], 16)) & 0xffffffffffffffff) != g['addr'] for e in cands):
